@@ -28,12 +28,16 @@ OPS_A = [
     "ins_many", "merge", "fail_merge", "fail_create_multi",
     # a load that does not go through cursor.execute at all
     "wp",
+    # leaving a `with connection:` block, normally and by an exception: neither is one of the ways the property names for
+    # ending a transaction (COMMIT / ROLLBACK as SQL or as connection methods), so nothing is published or undone
+    "with_exit", "with_exit_exc",
 ]
 OPS_B = ["begin", "ins", "ins_many", "commit", "rollback()", "fail", "fail_merge"]
 
 
 def all_ops(tier):
-    a = OPS_A if tier != "quick" else ["begin", "ins", "upd", "del", "create", "commit", "rollback", "commit()", "rollback()", "fail", "ins_many", "merge", "fail_merge", "fail_create_multi", "wp"]
+    a = OPS_A if tier != "quick" else [  # (the `with` exits are in phase 3 of the quick tier)
+       "begin", "ins", "upd", "del", "create", "commit", "rollback", "commit()", "rollback()", "fail", "ins_many", "merge", "fail_merge", "fail_create_multi", "wp"]
     return [("A", o) for o in a] + [("B", o) for o in OPS_B]
 
 
@@ -97,6 +101,8 @@ class Model:
             return "any"
         if kind in ("fail", "fail_merge", "fail_create_multi"):
             return "fail"
+        if kind in ("with_exit", "with_exit_exc"):
+            return "any"
         st = p if p is not None else self.committed
         t = "TA" if c == "A" else "TB"
         if kind in ("ins", "merge", "wp"):
@@ -178,8 +184,29 @@ def pick_cursor(conns, c, policy):
 
 
 def do(conns, c, kind, sql, policy="fresh"):
+    if policy == "thread":
+        # the statement is issued from a thread of its own (started and joined here: no concurrency); a transaction
+        # belongs to the connection, whichever thread its statements come from
+        import threading
+
+        box = []
+        t = threading.Thread(target=lambda: box.append(do(conns, c, kind, sql, "fresh")))
+        t.start()
+        t.join()
+        return box[0]
     conn = conns[c]
     try:
+        if kind == "with_exit":
+            with conn:
+                pass
+            return ("ok", None)
+        if kind == "with_exit_exc":
+            try:
+                with conn:
+                    raise KeyError("raised inside the with block")
+            except KeyError:
+                pass
+            return ("ok", None)
         if kind == "commit()":
             conn.commit()
             return ("ok", None)
@@ -262,7 +289,9 @@ def expand(item, acc: core.Acc, tier):
     acc.outcome((c, kind, got[0], pre_tx[c], repr(sorted(obs["B.cur1"].items()))[:60]))
     rp = {"history": hist, "op": [c, kind], "sql": sql, "cursors": policy}
     cls0 = f"conn={c},op={kind},self={pre_tx[c]},other={pre_tx['B' if c == 'A' else 'A']}"
-    if policy != "fresh":
+    if policy == "thread":
+        cls0 += ",issued_from=thread_of_its_own"
+    elif policy != "fresh":
         # how the connection's previous transaction (if any) ended matters for state kept per cursor object
         ended, mm = "never", Model()
         for cc, k in hist:
@@ -304,7 +333,9 @@ def expand(item, acc: core.Acc, tier):
     # must not change the implementation either. State hidden from the model (e.g. a flag shared between
     # connections) would make such a step matter for what follows, so the step is kept as part of the state key:
     # the successor is explored again "after a no-op by <connection>".
-    noop = kind in ("commit", "rollback", "commit()", "rollback()") and pre_tx[c] == "no_tx" or kind.startswith("fail")
+    noop = kind in ("commit", "rollback", "commit()", "rollback()") and pre_tx[c] == "no_tx" or kind.startswith("fail") or kind.startswith("with_exit")
+    if policy == "thread":
+        return (m.key(), ("thread", (c, kind) if noop else None))
     if policy != "fresh":
         # Cursor objects live as long as the history, so what a cursor remembers is state the model does not have.
         # A history that returns to a known model state (BEGIN .. COMMIT) is therefore NOT merged with it: the key
@@ -393,6 +424,37 @@ def run(ctx: core.Ctx):
             ctx.acc.add("states", k)
         phase2[policy] = {"depth_completed": d2, "transitions": n2, "states": len(seen2), "frontier_left_unexpanded": len(frontier)}
     ctx.extra["long_lived_cursors"] = phase2
+    # ---- phase 3: who issues the statement and how a block is left (reduced alphabet with `with connection:` exits), once
+    # with every statement issued from the main thread and once with every statement issued from a thread of its own ----
+    ops3 = [("A", o) for o in ("begin", "ins", "merge", "commit", "rollback", "commit()", "rollback()", "fail", "with_exit", "with_exit_exc")] + [("B", o) for o in ("begin", "ins")]
+    depth3 = 4 if ctx.quick else 5
+    phase3 = {}
+    for policy in ("fresh", "thread"):
+        seen3 = {(m0.key(), None), (m0.key(), ("thread", None))}
+        frontier = [[]]
+        d3 = n3 = 0
+        while frontier and d3 < depth3:
+            items = []
+            for hist in frontier:
+                m = Model()
+                for c, kind in hist:
+                    m.step(c, kind)
+                for c, kind in ops3:
+                    if m.enabled(c, kind):
+                        items.append((hist, (c, kind), policy))
+            n3 += len(items)
+            res = ctx.pmap(expand, items, recheck=False)
+            cands = sorted(((k, it[0] + [it[1]]) for it, k in res if k is not None), key=lambda x: (repr(x[0]), repr(x[1])))
+            frontier = []
+            for k, hist in cands:
+                if k not in seen3:
+                    seen3.add(k)
+                    frontier.append(hist)
+            d3 += 1
+        for k in seen3:
+            ctx.acc.add("states", ("phase3", policy, k))
+        phase3[policy] = {"depth_completed": d3, "transitions": n3, "states": len(seen3), "frontier_left_unexpanded": len(frontier)}
+    ctx.extra["issuing_thread_and_with_blocks"] = phase3
     for k in seen:
         ctx.acc.add("states", k)
     ctx.extra["bound"] = f"depth {d} completed" + (f" (stopped before depth {d + 1}: transition cap {cap})" if capped else "")
